@@ -551,6 +551,13 @@ func (e *Engine) verifyLemma(l *Lemma) (res *FuncResult) {
 	}
 	o := &Obligation{Name: pkgName + "#lemma:" + l.Name, Kind: "lemma", Tags: l.Tags, Func: "lemma " + l.Name, Src: l.Src, Expect: "unsat", Claimed: true}
 	o.Script = smtHeader + e.u.preamble() + smtPrelude + b.String()
+	for i := range e.known {
+		if e.known[i].Status == "known" && e.known[i].Obligation == o.Name {
+			// a lemma recorded as a known finding: reported as known while it still fails
+			o.Name += "?known"
+			o.Kind = "known-finding"
+		}
+	}
 	res.Status = "ok"
 	res.Obligations = []*Obligation{o}
 	return
